@@ -245,11 +245,16 @@ def run(ctx):
     ctx.require(len(lca_ifs) == 1, f"{wc}: branch on self._lca_trees not found")
     lca_body, plain_body = (lca_ifs[0].body, lca_ifs[0].orelse) if norm(lca_ifs[0].test) == "self._lca_trees" else (lca_ifs[0].orelse, lca_ifs[0].body)
 
+    # the winner variable, whatever it is called: the local that receives a decision function's result
+    wvars = {norm(a.targets[0]) for a in walk_own(fc) if isinstance(a, ast.Assign) and isinstance(a.value, ast.Call) and call_attr(a.value) in ("_lca_multi_way", "_three_way")}
+    ctx.require(len(wvars) == 1, f"{wc}: the local holding the content winner was not identified ({sorted(wvars)})")
+    wvar = wvars.pop()
+
     def _winner_assigns(stmts):
         out = []
         for st in stmts:
             for n in ast.walk(st):
-                if isinstance(n, ast.Assign) and any(norm(t) == "winner" for t in n.targets):
+                if isinstance(n, ast.Assign) and any(norm(t) == wvar for t in n.targets):
                     out.append(n)
         return out
 
@@ -268,12 +273,14 @@ def run(ctx):
     badl = [f"L{a.lineno}:{norm(a)[:60]}" for a in wa if not (isinstance(a.value, ast.Call) and call_attr(a.value) == "_lca_multi_way" and any(k.arg == "allow_overriding_lca" and const_value(k.value, 1) is False for k in a.value.keywords) and not _guards(lca_body, a))]
     ctx.check("content-decided-by-decision-functions", wc, bool(wa) and not badl, "in a criss-cross merge the content winner is always _lca_multi_way(.., allow_overriding_lca=False): texts are not scalars, differing LCA texts must reach the text merger", construct="; ".join(badl), message=f"the criss-cross branch of _do_merge_contents decides the content winner outside _lca_multi_way(.., allow_overriding_lca=False) ({'; '.join(badl)}): with differing LCA texts one side wins silently — the decision is not symmetric under exchanging THIS and OTHER (or a side carrying an LCA's text loses to nothing), no three-way text merge runs and no conflict is recorded")
     wp = _winner_assigns(plain_body)
+    tw = [a.value for a in wp if isinstance(a.value, ast.Call) and call_attr(a.value) == "_three_way" and len(a.value.args) == 3]
+    same_base_other = {f"{norm(c.args[0])} == {norm(c.args[1])}" for c in tw} | {f"{norm(c.args[1])} == {norm(c.args[0])}" for c in tw}
     badp = []
     for a in wp:
         if isinstance(a.value, ast.Call) and call_attr(a.value) == "_three_way":
             continue
         g_ = _guards(plain_body, a)
-        if const_value(a.value, None) == "this" and g_ and all(x in ("base_pair == other_pair", "other_pair == base_pair") for x in g_):
+        if const_value(a.value, None) == "this" and g_ and all(x in same_base_other for x in g_):
             continue  # the shortcut _three_way itself would take: OTHER unchanged -> 'this'
         badp.append(f"L{a.lineno}:{norm(a)[:60]} under {g_}")
     ctx.check("content-decided-by-decision-functions", wc, bool(wp) and not badp, "in a plain merge the content winner is _three_way(base, other, this), short-cut only by `base_pair == other_pair` -> 'this'", construct="; ".join(badp), message=f"_do_merge_contents decides the content winner outside _three_way ({'; '.join(badp)})")
